@@ -38,6 +38,8 @@ enum Pos {
     Dphi(usize, usize, usize),
     /// every observation multiplied by the value (mode starts)
     YAll,
+    /// EVERY weight set to the value (a uniform weight vector of a special magnitude)
+    WAll,
     /// starting parameter k MULTIPLIED by the value (mode starts)
     A0Mul(usize),
 }
@@ -72,6 +74,7 @@ fn pos_json(p: &Pos) -> Value {
         Pos::Set(k) => json!(["set", k]),
         Pos::Eps => json!(["eps", 0]),
         Pos::YAll => json!(["yall", 0]),
+        Pos::WAll => json!(["wall", 0]),
         Pos::A0Mul(k) => json!(["a0mul", k]),
         Pos::Phi(i, j) => json!(["phi", i, j]),
         Pos::Dphi(k, i, j) => json!(["dphi", k, i, j]),
@@ -88,6 +91,7 @@ fn pos_parse(v: &Value) -> Pos {
         "set" => Pos::Set(i),
         "eps" => Pos::Eps,
         "yall" => Pos::YAll,
+        "wall" => Pos::WAll,
         "a0mul" => Pos::A0Mul(i),
         "phi" => Pos::Phi(i, a[2].as_u64().unwrap() as usize),
         "dphi" => Pos::Dphi(i, a[2].as_u64().unwrap() as usize, a[3].as_u64().unwrap() as usize),
@@ -136,6 +140,7 @@ fn positions(b: &Base) -> Vec<Pos> {
         for i in 0..b.n {
             v.push(Pos::W(i));
         }
+        v.push(Pos::WAll);
     }
     for i in 0..b.n.min(3) {
         for j in 0..b.fam.m() {
@@ -184,6 +189,13 @@ fn run_case<T: Sc>(ctx: &Ctx, b: &Base, subs: &[(Pos, f64)]) {
             }
             Pos::Eps => eps = Some(*v),
             Pos::YAll => y *= *v,
+            Pos::WAll => {
+                if let Some(w) = w.as_mut() {
+                    for x in w.iter_mut() {
+                        *x = *v;
+                    }
+                }
+            }
             Pos::A0Mul(k) => a0[k] = a_true[k] * *v,
             Pos::Phi(i, j) => tamper.push((None, i, j, *v)),
             Pos::Dphi(k, i, j) => tamper.push((Some(k), i, j, *v)),
